@@ -215,3 +215,84 @@ func VerifC08NoTrace() {
 	}
 	nd.Reach("end")
 }
+
+// VerifC08LocalIndex: the all-or-nothing rule on a table (p, s) with a local secondary index (p, g), a
+// global one (h) and, optionally, a second global one: a write whose index key attribute has the wrong type
+// for any of the three, or is an empty string, either succeeds or fails without a trace in the table and
+// in every index.
+func VerifC08LocalIndex() {
+	c := NewClient()
+	in := generateAddTableInput(vTbl, "p", "s")
+	in.AttributeDefinitions = append(in.AttributeDefinitions,
+		types.AttributeDefinition{AttributeName: aws.String("g"), AttributeType: types.ScalarAttributeTypeS},
+		types.AttributeDefinition{AttributeName: aws.String("h"), AttributeType: types.ScalarAttributeTypeS})
+	in.LocalSecondaryIndexes = []types.LocalSecondaryIndex{{IndexName: aws.String("lsi"),
+		KeySchema:  []types.KeySchemaElement{{AttributeName: aws.String("p"), KeyType: types.KeyTypeHash}, {AttributeName: aws.String("g"), KeyType: types.KeyTypeRange}},
+		Projection: &types.Projection{ProjectionType: types.ProjectionTypeAll}}}
+	in.GlobalSecondaryIndexes = []types.GlobalSecondaryIndex{{IndexName: aws.String("gsi"),
+		KeySchema:  []types.KeySchemaElement{{AttributeName: aws.String("h"), KeyType: types.KeyTypeHash}},
+		Projection: &types.Projection{ProjectionType: types.ProjectionTypeAll}}}
+	_, err := c.CreateTable(vCtx, in)
+	nd.Assert(err == nil, "setup-createtable")
+	nd.Assert(vPut(c, vItem{"p": vS("k"), "s": vS("r"), "g": vS("a"), "h": vS("b"), "v": vS("x")}) == nil, "setup-put")
+	observe := func() string {
+		out := ""
+		for _, idx := range []string{"", "lsi", "gsi"} {
+			sin := &dynamodb.ScanInput{TableName: aws.String(vTbl)}
+			if idx != "" {
+				sin.IndexName = aws.String(idx)
+			}
+			o, serr := c.Scan(vCtx, sin)
+			nd.Assert(serr == nil, "observe-scan")
+			if serr != nil {
+				continue
+			}
+			out += "|" + idx + ":" + nd.Itoa(int64(len(o.Items)))
+			for _, it := range o.Items {
+				out += "{"
+				for _, a := range []string{"p", "s", "g", "h", "v"} {
+					switch x := it[a].(type) {
+					case *types.AttributeValueMemberS:
+						out += a + "=S" + x.Value + ";"
+					case *types.AttributeValueMemberN:
+						out += a + "=N" + x.Value + ";"
+					}
+				}
+				out += "#" + nd.Itoa(int64(len(it))) + "}"
+			}
+		}
+		return out
+	}
+	before := observe()
+	bad := []string{"g", "h"}[nd.Choice("index-key", 2)]
+	var badVal types.AttributeValue = vN("1")
+	if nd.Choice("empty-string-instead", 2) == 1 {
+		badVal = vS("")
+	}
+	existing := nd.Choice("existing-item", 2) == 1
+	s := "r"
+	if !existing {
+		s = "new"
+	}
+	var werr error
+	var panicked bool
+	if nd.Choice("write", 2) == 0 {
+		it := vItem{"p": vS("k"), "s": vS(s), "g": vS("a2"), "h": vS("b2"), "v": vS("y")}
+		it[bad] = badVal
+		werr, panicked = vCatch(func() error { return vPut(c, it) })
+	} else {
+		werr, panicked = vCatch(func() error {
+			_, e := c.UpdateItem(vCtx, &dynamodb.UpdateItemInput{TableName: aws.String(vTbl), Key: vItem{"p": vS("k"), "s": vS(s)},
+				UpdateExpression: aws.String("SET v = :y, " + bad + " = :bad"), ExpressionAttributeValues: vItem{":y": vS("y"), ":bad": badVal}})
+			return e
+		})
+	}
+	if werr != nil || panicked {
+		nd.Reach("failed")
+		nd.Assert(before == observe(), "C08-failed-write-leaves-no-trace-in-table-lsi-gsi ["+bad+"]")
+	} else {
+		nd.Reach("succeeded")
+	}
+	vInvariant(c, "C08-lsi")
+	nd.Reach("end")
+}
